@@ -31,6 +31,7 @@ class Grammar(qc.SyncOps, qc.QGrammar):
 
 class Check(E3Check):
     prop = "C07"
+    quick_budget_s = 90.0      # the round-1 seed (HAS_WAITERS cleared under a re-entered group) needs about 10^4 cases: 45 s missed it in 2 of 3 runs
     rule = ("Hypothesis recipe -> sound program on one or two dispatch groups: enter/leave pairs split across 1-4 threads and items (each leave claims the token of "
             "one enter, so the program is balanced by construction; unclaimed leaves are issued by the harness janitor when the program stalls), dispatch_group_async, "
             "notify blocks registered before/at/after the zero transition, waits with FOREVER / NOW / 20us-3ms timeouts on all three clocks, several generations. Oracles: "
